@@ -93,17 +93,11 @@ def network_simplex(
     root = n
 
     # Spanning tree: parent[i] = parent node, pred[i] = arc to parent, depth[i] = tree depth
-    # thread/rev_thread = preorder traversal links for fast subtree iteration
     parent = [root] * total_nodes
     parent[root] = -1
     pred = list(range(m, m + n)) + [-1]
     depth = [1] * total_nodes
     depth[root] = 0
-    thread = list(range(1, total_nodes)) + [0]
-    thread[n - 1] = root
-    thread[root] = 0
-    rev_thread = [root] + list(range(total_nodes - 1))
-    rev_thread[root] = n - 1
 
     # pi[i] = node potential (dual variable); reduced cost = cost - pi[src] + pi[tgt]
     pi = [0.0] * total_nodes
@@ -123,6 +117,8 @@ def network_simplex(
             state[arc] = -1
         else:
             state[arc] = 0
+    for node in range(n):
+        state[pred[node]] = 0  # tree arcs are basic whatever their flow
 
     iterations = 0
 
@@ -225,60 +221,23 @@ def network_simplex(
                 state[arc] = 0
 
         if leaving != entering:
-            if leaving_first:
-                leaving_node = first
-                while pred[leaving_node] != leaving:
-                    leaving_node = parent[leaving_node]
-                new_parent = second
-            else:
-                leaving_node = second
-                while pred[leaving_node] != leaving:
-                    leaving_node = parent[leaving_node]
-                new_parent = first
-
-            prev_thread = rev_thread[leaving_node]
-            subtree_last = leaving_node
-            node = thread[leaving_node]
-            while depth[node] > depth[leaving_node]:
-                subtree_last = node
-                node = thread[node]
-
-            thread[prev_thread] = thread[subtree_last]
-            rev_thread[thread[subtree_last]] = prev_thread
-
-            attach_point = new_parent
-            node = thread[new_parent]
-            while node != new_parent and depth[node] > depth[new_parent]:
-                attach_point = node
-                node = thread[node]
-
-            thread[subtree_last] = thread[attach_point]
-            if thread[attach_point] < total_nodes:
-                rev_thread[thread[attach_point]] = subtree_last
-            thread[attach_point] = leaving_node
-            rev_thread[leaving_node] = attach_point
-
-            parent[leaving_node] = new_parent
-            pred[leaving_node] = entering
-
-            diff = depth[new_parent] + 1 - depth[leaving_node]
-            node = leaving_node
+            # The leaving arc cuts a subtree off the tree; exactly one endpoint of the entering
+            # arc lies inside it. Re-root that subtree at this endpoint (reverse the stem up to
+            # the old subtree root) and hang it below the other endpoint through the entering arc.
+            inside, outside = (first, second) if leaving_first else (second, first)
+            node, new_parent, new_pred = inside, outside, entering
             while True:
-                depth[node] += diff
-                node = thread[node]
-                if depth[node] <= depth[leaving_node] - diff or node == leaving_node:
+                old_parent, old_pred = parent[node], pred[node]
+                parent[node], pred[node] = new_parent, new_pred
+                if old_pred == leaving:
                     break
+                node, new_parent, new_pred = old_parent, node, old_pred
 
-            node = leaving_node
-            while True:
-                arc = pred[node]
-                if source[arc] == parent[node]:
-                    pi[node] = pi[parent[node]] - cost[arc]
-                else:
-                    pi[node] = pi[parent[node]] + cost[arc]
-                node = thread[node]
-                if depth[node] <= depth[new_parent] or node == leaving_node:
-                    break
+            _refresh_tree(n, root, parent, pred, depth, pi, source, cost)
+
+        # Tree arcs are basic whatever their flow (a degenerate tree arc sits at a bound)
+        for node in range(n):
+            state[pred[node]] = 0
 
     for arc in range(m, total_arcs):
         if flow[arc] > 0:
@@ -293,6 +252,25 @@ def network_simplex(
             flow_dict[key] = flow_dict.get(key, 0) + flow[i]
 
     return Result(flow_dict, total_cost, iterations, total_arcs)
+
+
+def _refresh_tree(n, root, parent, pred, depth, pi, source, cost):
+    """Recompute depths and node potentials from the parent / predecessor-arc pointers."""
+    children: list[list[int]] = [[] for _ in range(n + 1)]
+    for node in range(n):
+        children[parent[node]].append(node)
+    stack = [root]
+    while stack:
+        p = stack.pop()
+        for node in children[p]:
+            arc = pred[node]
+            depth[node] = depth[p] + 1
+            # tree arcs have zero reduced cost: cost - pi[src] + pi[tgt] = 0
+            if source[arc] == node:
+                pi[node] = pi[p] + cost[arc]
+            else:
+                pi[node] = pi[p] - cost[arc]
+            stack.append(node)
 
 
 def _find_join(u, v, depth, parent):
